@@ -29,27 +29,48 @@ EXTENDS PegTypes, TextPos, TLC
    deliberately broken and TLC must report the corresponding law as violated:
    "not" (not_ moves the position), "alt" (the right alternative does not start at the entry
    position), "rep" (a repetition fails when its first element fails), "opt" (optional does not
-   restore the position), "fatal" (alternative tries the right side after a fatal error) *)
+   restore the position), "fatal" (alternative tries the right side after a fatal error),
+   "loc" (error location before instead of after the offending character) *)
 CONSTANT Bug
 
 InSeq(c, cs) == \E i \in 1..Len(cs) : cs[i] = c
 
-Ok(p, v, pr) == [ok |-> TRUE, fatal |-> FALSE, pos |-> p, val |-> v, probes |-> pr]
-Fail(f, pr) == [ok |-> FALSE, fatal |-> f, pos |-> 0, val |-> VUnit, probes |-> pr]
+(* Error locations.  "Line l:c: Expected x, got y" is the message of a literal / char_set (parser
+   or skipper) that read a character it does not accept (detail/expected.hpp; parse.doxygen, section
+   Fatal Errors: "{ Line 1:3: Expected }, got ] OR Line 1:2: Expected [, got { }" for a | b and
+   "Line 1:3: Expected }, got ]." when the first error is fatal); l:c is the location AFTER the
+   offending character (property C12).  `locs` of a failure is the ordered list of the locations
+   that the composed message must contain:
+     <<l, c>>    a location that must be present (literal / char_set mismatch)
+     <<-1, -1>>  a place where a location MAY be present (complement and string mismatches carry none
+                 in the code and the documentation does not say; not judged)
+   End of input ("EOF") carries no location.  Composition follows the documented control flow: a
+   sequence returns the first error; an alternative whose sides both fail non-fatally contains
+   the left error then the right error, a fatal error is returned alone; repetition / optional
+   return the element's error only if it is fatal; named / not_ / convert_if / the number
+   conversions produce their own message (no location).  The wording is not modelled. *)
+LocAfter(s, p) == <<Line(s, p + 1), Col(s, p + 1)>>
+MayLoc == <<-1, -1>>
+
+Ok(p, v, pr) == [ok |-> TRUE, fatal |-> FALSE, pos |-> p, val |-> v, probes |-> pr, locs |-> <<>>]
+FailL(f, pr, lc) == [ok |-> FALSE, fatal |-> f, pos |-> 0, val |-> VUnit, probes |-> pr, locs |-> lc]
+Fail(f, pr) == FailL(f, pr, <<>>)
 
 EpsSk == [k |-> "eps"]
 DigitCs == <<48, 49, 50, 51, 52, 53, 54, 55, 56, 57>>
 
 (* ------------------------------------------------------------------ skippers *)
-SOk(p) == [ok |-> TRUE, pos |-> p]
-SFail == [ok |-> FALSE, pos |-> 0]
+SOk(p) == [ok |-> TRUE, pos |-> p, locs |-> <<>>]
+SFail(lc) == [ok |-> FALSE, pos |-> 0, locs |-> lc]
+(* one-character skipper failing at p: location after the character read, none at end of input *)
+SMismatch(s, p) == SFail(IF p < Len(s) THEN <<IF Bug = "loc" THEN <<Line(s, p), Col(s, p)>> ELSE LocAfter(s, p)>> ELSE <<>>)
 
 RECURSIVE Skip(_, _, _), SkipRep(_, _, _)
 Skip(sk, s, p) ==
   CASE sk.k = "eps" -> SOk(p)
-    [] sk.k = "lit" -> IF p < Len(s) /\ s[p + 1] = sk.c THEN SOk(p + 1) ELSE SFail
-    [] sk.k = "cset" -> IF p < Len(s) /\ InSeq(s[p + 1], sk.cs) THEN SOk(p + 1) ELSE SFail
-    [] sk.k = "seq" -> LET a == Skip(sk.l, s, p) IN IF a.ok THEN Skip(sk.r, s, a.pos) ELSE SFail
+    [] sk.k = "lit" -> IF p < Len(s) /\ s[p + 1] = sk.c THEN SOk(p + 1) ELSE SMismatch(s, p)
+    [] sk.k = "cset" -> IF p < Len(s) /\ InSeq(s[p + 1], sk.cs) THEN SOk(p + 1) ELSE SMismatch(s, p)
+    [] sk.k = "seq" -> LET a == Skip(sk.l, s, p) IN IF a.ok THEN Skip(sk.r, s, a.pos) ELSE a
     [] sk.k = "rep" -> SkipRep(sk.g, s, p)
 (* repetition: apply while it succeeds, committing after each success; on failure rewind to the
    last commit; no listed skipper fails fatally, so a repetition never fails.  (An operand that
@@ -100,53 +121,69 @@ ConvVal(f, v) ==
     [] f = "len" -> VInt(IF v.t = "str" THEN Len(v.cs) ELSE Len(v.es))  \* string/vector -> size
     [] f = "box" -> VBox(v)                                       \* construct<boxed<T>>
     [] f = "inc" -> VInt(v.n + 1)
+    [] f = "struct" -> VBox(v)     \* as_struct<S>: "Result{t_1,...,t_n}" - the struct of the tuple's elements
+    [] f = "swap" -> VTup(<<v.es[2], v.es[1]>>)                   \* convert on a 2-tuple
+    [] f = "jvalue" -> VBox(v)                                    \* construct<json::value>
+(* no key occurs twice in a vector of (string, value) entries *)
+UniqueKeys(es) == \A i \in 1..Len(es) : \A j \in 1..Len(es) : i # j => es[i].es[1] # es[j].es[1]
 (* convert_if functions: [ok, val] *)
 ConvIf(f, v) ==
   CASE f = "is_a" -> [ok |-> v.c = 97, val |-> VInt(1)]           \* char: 'a' -> 1, else error
     [] f = "nonempty" -> [ok |-> (IF v.t = "str" THEN Len(v.cs) ELSE Len(v.es)) > 0, val |-> v]
+    [] f = "ordered" -> [ok |-> v.es[1].c <= v.es[2].c, val |-> v]  \* 2-tuple of chars, first <= second
+    [] f = "uniqkeys" -> [ok |-> UniqueKeys(v.es), val |-> v]      \* JSON object: "Double insert" error
 
 (* ------------------------------------------------------------------ parsers *)
 RECURSIVE Parse(_, _, _, _, _), RepLoop(_, _, _, _, _, _, _)
+
+(* one-character parser failing at p *)
+Mismatch(s, p, may) ==
+  FailL(FALSE, <<>>, IF p >= Len(s) THEN <<>> ELSE IF may THEN <<MayLoc>>
+                     ELSE <<IF Bug = "loc" THEN <<Line(s, p), Col(s, p)>> ELSE LocAfter(s, p)>>)
 
 (* repetition(g) from position q with acc collected so far: element, then skipper; the position
    is committed only after both succeeded; any failure ends the loop and rewinds to the last
    commit; the repetition fails only if that failure is fatal. *)
 RepLoop(g, sk, s, q, acc, pr, ps) ==
   LET e == Parse(g, sk, s, q, ps) IN
-  IF ~e.ok THEN (IF e.fatal THEN Fail(TRUE, pr \o e.probes) ELSE Ok(q, acc, pr \o e.probes))
+  IF ~e.ok THEN (IF e.fatal THEN FailL(TRUE, pr \o e.probes, e.locs) ELSE Ok(q, acc, pr \o e.probes))
   ELSE LET k == Skip(sk, s, e.pos) IN
        IF ~k.ok \/ k.pos = q THEN Ok(q, acc, pr \o e.probes)   \* (skipper failure: family restriction)
        ELSE RepLoop(g, sk, s, k.pos, Append(acc, e.val), pr \o e.probes, ps)
+
+(* result e of an operand passed through with its value mapped *)
+MapVal(e, v) == IF e.ok THEN Ok(e.pos, v, e.probes) ELSE e
 
 Parse(g, sk, s, p, ps) ==
   CASE g.k = "eps" -> Ok(p, VUnit, <<>>)
     [] g.k = "fail" -> Fail(FALSE, <<>>)
     [] g.k = "probe" -> Ok(p, VUnit, <<<<g.id, p, Line(s, p), Col(s, p)>>>>)
     [] g.k = "char" -> IF p < Len(s) THEN Ok(p + 1, VChar(s[p + 1]), <<>>) ELSE Fail(FALSE, <<>>)
-    [] g.k = "lit" -> IF p < Len(s) /\ s[p + 1] = g.c THEN Ok(p + 1, VUnit, <<>>) ELSE Fail(FALSE, <<>>)
+    [] g.k = "lit" -> IF p < Len(s) /\ s[p + 1] = g.c THEN Ok(p + 1, VUnit, <<>>) ELSE Mismatch(s, p, FALSE)
     [] g.k = "cset" -> IF p < Len(s) /\ InSeq(s[p + 1], g.cs) THEN Ok(p + 1, VChar(s[p + 1]), <<>>)
-                       ELSE Fail(FALSE, <<>>)
+                       ELSE Mismatch(s, p, FALSE)
     [] g.k = "compl" -> IF p < Len(s) /\ ~InSeq(s[p + 1], g.cs) THEN Ok(p + 1, VChar(s[p + 1]), <<>>)
-                        ELSE Fail(FALSE, <<>>)
+                        ELSE Mismatch(s, p, TRUE)
     [] g.k = "str" -> IF p + Len(g.w) <= Len(s) /\ SubSeq(s, p + 1, p + Len(g.w)) = g.w
-                      THEN Ok(p + Len(g.w), VUnit, <<>>) ELSE Fail(FALSE, <<>>)
+                      THEN Ok(p + Len(g.w), VUnit, <<>>) ELSE FailL(FALSE, <<>>, <<MayLoc>>)
     [] g.k = "seq" ->
          \* left; skipper; right; the first failure is the result; no rewind
          LET l == Parse(g.l, sk, s, p, ps) IN
          IF ~l.ok THEN l
          ELSE LET k == Skip(sk, s, l.pos) IN
-              IF ~k.ok THEN Fail(FALSE, l.probes)
+              IF ~k.ok THEN FailL(FALSE, l.probes, k.locs)
               ELSE LET r == Parse(g.r, sk, s, k.pos, ps) IN
-                   IF ~r.ok THEN Fail(r.fatal, l.probes \o r.probes)
+                   IF ~r.ok THEN FailL(r.fatal, l.probes \o r.probes, r.locs)
                    ELSE Ok(r.pos, SeqVal(g.l.ty, g.r.ty, l.val, r.val), l.probes \o r.probes)
     [] g.k = "alt" ->
-         \* left at p; success -> that; fatal -> that; otherwise right at p (rewound)
+         \* left at p; success -> that; fatal -> that; otherwise right at p (rewound); if both fail
+         \* non-fatally the error holds the left error, then the right error; a fatal right error alone
          LET l == Parse(g.l, sk, s, p, ps) IN
          IF l.ok THEN Ok(l.pos, AltVal(g.ty, g.l.ty, l.val), l.probes)
          ELSE IF l.fatal /\ Bug # "fatal" THEN l
          ELSE LET r == Parse(g.r, sk, s, IF Bug = "alt" /\ p < Len(s) THEN p + 1 ELSE p, ps) IN
               IF r.ok THEN Ok(r.pos, AltVal(g.ty, g.r.ty, r.val), l.probes \o r.probes)
-              ELSE Fail(r.fatal, l.probes \o r.probes)
+              ELSE FailL(r.fatal, l.probes \o r.probes, IF r.fatal THEN r.locs ELSE l.locs \o r.locs)
     [] g.k = "rep" ->
          LET r == RepLoop(g.g, sk, s, p, <<>>, <<>>, ps) IN
          IF Bug = "rep" /\ r.ok /\ r.val = <<>> THEN Fail(FALSE, r.probes)
@@ -156,9 +193,9 @@ Parse(g, sk, s, p, ps) ==
          LET h == Parse(g.g, sk, s, p, ps) IN
          IF ~h.ok THEN h
          ELSE LET k == Skip(sk, s, h.pos) IN
-              IF ~k.ok THEN Fail(FALSE, h.probes)
+              IF ~k.ok THEN FailL(FALSE, h.probes, k.locs)
               ELSE LET r == RepLoop(g.g, sk, s, k.pos, <<>>, <<>>, ps) IN
-                   IF ~r.ok THEN Fail(TRUE, h.probes \o r.probes)
+                   IF ~r.ok THEN FailL(TRUE, h.probes \o r.probes, r.locs)
                    ELSE Ok(r.pos, RepVal(g.g.ty, <<h.val>> \o r.val), h.probes \o r.probes)
     [] g.k = "opt" ->
          LET e == Parse(g.g, sk, s, p, ps) IN
@@ -170,15 +207,15 @@ Parse(g, sk, s, p, ps) ==
          LET e == Parse(g.g, sk, s, p, ps) IN
          IF e.ok THEN Fail(FALSE, e.probes)
          ELSE Ok(IF Bug = "not" /\ p < Len(s) THEN p + 1 ELSE p, VUnit, e.probes)
-    [] g.k = "fatal" -> LET e == Parse(g.g, sk, s, p, ps) IN IF e.ok THEN e ELSE Fail(TRUE, e.probes)
+    [] g.k = "fatal" -> LET e == Parse(g.g, sk, s, p, ps) IN IF e.ok THEN e ELSE FailL(TRUE, e.probes, e.locs)
     [] g.k = "named" -> LET e == Parse(g.g, sk, s, p, ps) IN IF e.ok THEN e ELSE Fail(FALSE, e.probes)
     [] g.k = "lexeme" -> Parse(g.g, EpsSk, s, p, ps)
     [] g.k = "base" -> Parse(g.g, sk, s, p, ps)
     [] g.k = "ref" -> Parse(ps[g.n], sk, s, p, ps)
-    [] g.k = "ignore" -> LET e == Parse(g.g, sk, s, p, ps) IN IF e.ok THEN Ok(e.pos, VUnit, e.probes) ELSE e
-    [] g.k = "recursive" -> LET e == Parse(g.g, sk, s, p, ps) IN IF e.ok THEN Ok(e.pos, VRec(e.val), e.probes) ELSE e
-    [] g.k = "conv" -> LET e == Parse(g.g, sk, s, p, ps) IN IF e.ok THEN Ok(e.pos, ConvVal(g.f, e.val), e.probes) ELSE e
-    [] g.k = "cconst" -> LET e == Parse(g.g, sk, s, p, ps) IN IF e.ok THEN Ok(e.pos, g.v, e.probes) ELSE e
+    [] g.k = "ignore" -> LET e == Parse(g.g, sk, s, p, ps) IN MapVal(e, VUnit)
+    [] g.k = "recursive" -> LET e == Parse(g.g, sk, s, p, ps) IN MapVal(e, VRec(e.val))
+    [] g.k = "conv" -> LET e == Parse(g.g, sk, s, p, ps) IN MapVal(e, IF e.ok THEN ConvVal(g.f, e.val) ELSE VUnit)
+    [] g.k = "cconst" -> LET e == Parse(g.g, sk, s, p, ps) IN MapVal(e, g.v)
     [] g.k = "convif" ->
          LET e == Parse(g.g, sk, s, p, ps) IN
          IF ~e.ok THEN e
@@ -217,17 +254,37 @@ Parse(g, sk, s, p, ps) ==
          IN IF ~e.ok THEN e ELSE Ok(e.pos, VFloat, <<>>)
 
 (* ------------------------------------------------------------------ entry points *)
-(* phrase_parse_string(g, s, sk) (parse_string = the same with the epsilon skipper;
-   grammar_parse_string = the same with the grammar's start symbol and skipper): run the skipper,
-   then the parser; success only if the whole input was consumed - there is NO trailing skipper
-   run.  Result as the harness logs it: [ok, fatal, val (flat), probes]. *)
-Run(g, sk, s, ps) ==
+(* The result as the harness logs it: [ok, fatal, val (flat), probes, locs].
+   "string": phrase_parse_string(g, s, sk) (parse_string = the same with the epsilon skipper;
+      grammar_parse_string = the same with the grammar's start symbol and skipper): run the skipper,
+      then the parser (phrase_parse.hpp: "First, the skipper is called. If this succeeds, then the
+      result of parsing the input with the parser and the skipper is returned"); success only if the
+      whole input was consumed - there is NO trailing skipper run.
+   "stream": phrase_parse_stream / parse_stream / grammar_parse_stream over a std stream: the same
+      without the remaining-input check (what remains readable afterwards is not documented and
+      not judged).
+   "bad":    phrase_parse_stream of  g >> B >> char_  where the user-defined parser B puts the
+      underlying std stream into the bad state: whatever touches the stream next throws, and
+      phrase_parse "catches all exceptions produced by the input and returns them as an error":
+      never a success; the probes are those of g. *)
+Res(ok, fatal, val, pr, lc) == [ok |-> ok, fatal |-> fatal, val |-> val, probes |-> pr, locs |-> lc]
+Run(mode, g, sk, s, ps) ==
   LET k == Skip(sk, s, 0) IN
-  IF ~k.ok THEN [ok |-> FALSE, fatal |-> FALSE, val |-> <<>>, probes |-> <<>>]
+  IF ~k.ok THEN Res(FALSE, FALSE, <<>>, <<>>, k.locs)
   ELSE LET r == Parse(g, sk, s, k.pos, ps) IN
-       IF ~r.ok THEN [ok |-> FALSE, fatal |-> r.fatal, val |-> <<>>, probes |-> r.probes]
-       ELSE IF r.pos < Len(s) THEN [ok |-> FALSE, fatal |-> FALSE, val |-> <<>>, probes |-> r.probes]
-       ELSE [ok |-> TRUE, fatal |-> FALSE, val |-> Enc(r.val), probes |-> r.probes]
+       IF ~r.ok THEN Res(FALSE, r.fatal, <<>>, r.probes, r.locs)
+       ELSE IF mode = "bad" THEN Res(FALSE, FALSE, <<>>, r.probes, <<>>)
+       ELSE IF mode = "string" /\ r.pos < Len(s) THEN Res(FALSE, FALSE, <<>>, r.probes, <<>>)
+       ELSE Res(TRUE, FALSE, Enc(r.val), r.probes, <<>>)
+
+(* do the `Line l:c` locations found in a real error message (in order) fit the locations of the
+   specification's error?  must-entries have to be there, may-entries may be there (any value) *)
+RECURSIVE LocsMatch(_, _)
+LocsMatch(logged, spec) ==
+  IF spec = <<>> THEN logged = <<>>
+  ELSE IF Head(spec) = MayLoc
+       THEN LocsMatch(logged, Tail(spec)) \/ (logged # <<>> /\ LocsMatch(Tail(logged), Tail(spec)))
+       ELSE logged # <<>> /\ Head(logged) = Head(spec) /\ LocsMatch(Tail(logged), Tail(spec))
 
 (* ------------------------------------------------------------------ static checks on a grammar *)
 Kids(g) ==
@@ -250,7 +307,9 @@ TyOf(g) ==
     [] g.k = "opt" -> TOpt(g.g.ty)
     [] g.k \in {"fatal", "lexeme", "named", "base"} -> g.g.ty
     [] g.k = "recursive" -> TRec(g.g.ty)
-    [] g.k = "conv" -> (IF g.f = "box" THEN TBox(g.g.ty) ELSE TInt)
+    [] g.k = "conv" -> (CASE g.f \in {"box", "struct", "jvalue"} -> TBox(g.g.ty)
+                          [] g.f = "swap" -> TTup(<<g.g.ty.es[2], g.g.ty.es[1]>>)
+                          [] OTHER -> TInt)
     [] g.k = "convif" -> (IF g.f = "is_a" THEN TInt ELSE g.g.ty)
     [] g.k = "cconst" -> g.ty
     [] g.k = "seq" -> SeqTy(g.l.ty, g.r.ty)
@@ -265,8 +324,13 @@ ArgsOK(g) ==
     [] g.k = "list" -> g.b.ty = TUnit /\ g.s.ty = TUnit /\ g.e.ty = TUnit
     [] g.k = "plus" -> g.g.ty.t \notin {"unit", "tup"}
     [] g.k = "conv" -> (CASE g.f = "code" -> g.g.ty = TChar [] g.f = "len" -> g.g.ty.t \in {"str", "vec"}
-                          [] g.f = "inc" -> g.g.ty = TInt [] OTHER -> TRUE)
-    [] g.k = "convif" -> (IF g.f = "is_a" THEN g.g.ty = TChar ELSE g.g.ty.t \in {"str", "vec"})
+                          [] g.f = "inc" -> g.g.ty = TInt
+                          [] g.f = "struct" -> g.g.ty.t = "tup"
+                          [] g.f = "swap" -> g.g.ty.t = "tup" /\ Len(g.g.ty.es) = 2
+                          [] OTHER -> TRUE)
+    [] g.k = "convif" -> (CASE g.f = "is_a" -> g.g.ty = TChar
+                            [] g.f = "ordered" -> g.g.ty = TTup(<<TChar, TChar>>)
+                            [] OTHER -> g.g.ty.t \in {"str", "vec"})
     [] OTHER -> TRUE
 
 WellTyped(g) == \A h \in Subterms(g) : h.ty = TyOf(h) /\ ArgsOK(h)
